@@ -449,7 +449,6 @@ theorem lineStep_G (r : PState) (l : GLine) (rest : List Nat) (zo : Name)
     rw [key { r with tok := after 0 false (l.b0 ++ (l.hdr.first ++ (l.hdr.rest ++ (l.rdText ++ rest)))), lastName := some l.n }
       rfl rfl hco hzo rfl rfl (getIdent_blank l.b0 _ _ hg.b0.blank hfo.ok hfo.ne hT1)]
     simp only [Except.map, afterG]
-    cases l.hdr.hasTTL <;> rfl
   | none =>
     simp only [hown', Option.getD_none, List.nil_append] at htok
     rw [owner_inherited_stage r l.b0 l.hdr.first _ zo zo l.n l.m hco hzo (hown hown') htok hg.b0.blank hg.b0.ne
@@ -465,5 +464,100 @@ theorem lineStep_G (r : PState) (l : GLine) (rest : List Nat) (zo : Name)
     · simp only [if_true]
       congr 2
       cases r; simp only at hl; subst hl; rfl
+
+/-! ## the two directives the writer emits -/
+
+theorem get_eol_after' (rest : List Nat) :
+    (after 0 false (10 :: rest)).get = .ok ({ ttype := .eol, value := [10] }, after 0 false rest) := by
+  rw [get_after, runSkip_eol]
+  simp [liftOut, after]
+
+/-- `$TTL <n>` -/
+theorem lineStep_ttl_dir (r : PState) (d : Nat) (rest : List Nat) (hd : d ≤ Consts.maxTTL)
+    (htok : r.tok = after 0 false (s2l "$TTL " ++ (natToDec d ++ 10 :: rest))) :
+    lineStep r = .ok (.nothing, { r with tok := after 0 false rest, defaultTTL := d, defaultTTLKnown := true }) := by
+  have hdec : identOK (natToDec d) = true ∧ natToDec d ≠ [] := by
+    refine ⟨?_, ?_⟩
+    · have hall := natToDec_all d
+      have : ∀ ds : List Nat, ds.all isDecimal = true → identOK ds = true := by
+        intro ds
+        induction ds with
+        | nil => intro _; rfl
+        | cons c cs ih =>
+          intro h
+          simp only [List.all_cons, Bool.and_eq_true] at h
+          have hc : 48 ≤ c ∧ c ≤ 57 := by simpa [isDecimal] using h.1
+          have h92 : c ≠ 92 := by omega
+          have hdl : isDelim false c = false := by simp [isDelim, delimiters]; omega
+          rw [identOK.eq_def]
+          split
+          · rfl
+          · rename_i heq; simp at heq; exact absurd heq.1 h92
+          · rename_i heq; simp at heq; exact absurd heq.1 h92
+          · rename_i heq
+            simp only [List.cons.injEq] at heq
+            obtain ⟨rfl, rfl⟩ := heq
+            simp [hdl, ih h.2]
+      exact this _ hall
+    · exact natToDec_ne_nil d
+  have hv : ttlOf (natToDec d) = some d := by
+    unfold ttlOf ttlFromText
+    simp only [natToDec_ne_nil, ne_eq, not_false_eq_true, natToDec_all, and_self, if_true, digitsVal_natToDec]
+    have : ¬ d > Consts.maxTTL := by omega
+    simp [this]
+  have e : s2l "$TTL " ++ (natToDec d ++ 10 :: rest) = s2l "$TTL" ++ (32 :: (natToDec d ++ 10 :: rest)) := by
+    simp [s2l]
+  rw [e] at htok
+  have hg := get_first_ident (s2l "$TTL") (32 :: (natToDec d ++ 10 :: rest)) (by decide) (by decide) ⟨32, _, rfl, by decide⟩
+  have hg2 : (after 0 false (32 :: (natToDec d ++ 10 :: rest))).get = .ok (identToken (natToDec d), after 0 false (10 :: rest)) := by
+    have := get_blank_word [32] (.ident (natToDec d)) (10 :: rest) (blank_cons blank_nil)
+      (by simp [Word.ok, hdec.1, hdec.2]) ⟨10, rest, rfl, by decide⟩
+    simpa [Word.text, Word.token, Word.isQuoted, identToken] using this
+  unfold lineStep
+  simp only [bind, Except.bind, liftT, htok, hg]
+  have h1 : (identToken (s2l "$TTL")).ttype ≠ .eof := by simp [identToken]
+  have h2 : (identToken (s2l "$TTL")).ttype ≠ .eol := by simp [identToken]
+  have h3 : (identToken (s2l "$TTL")).ttype ≠ .comment := by simp [identToken]
+  have h4 : (s2l "$TTL").head? = some 36 := by decide
+  have h5 : directiveOf (s2l "$TTL") = s2l "$TTL" := by decide
+  simp only [h1, h2, h3, h4, h5, if_false, if_true, hg2, identToken, Token.isIdentifier, beq_self_eq_true, Bool.not_true,
+    Bool.false_eq_true, hv, TState.getEol, bind, Except.bind, get_eol_after', Token.isEolOrEof, pure, Except.pure]
+  simp
+
+/-- the zone origin after a `$ORIGIN` directive: set only when none was known -/
+def originAfter (z : Option Name) (o : Name) : Option Name :=
+  match z with
+  | none => some o
+  | some z => some z
+
+/-- `$ORIGIN <name>` -/
+theorem lineStep_origin_dir (r : PState) (ot : List Nat) (o : Name) (rest : List Nat)
+    (hot : identOK ot = true) (hne : ot ≠ []) (hname : fromText ot none = .ok o)
+    (htok : r.tok = after 0 false (s2l "$ORIGIN " ++ (ot ++ 10 :: rest))) :
+    lineStep r = .ok (.nothing, { r with tok := after 0 false rest, currentOrigin := some o,
+                                         zoneOrigin := originAfter r.zoneOrigin o }) := by
+  have e : s2l "$ORIGIN " ++ (ot ++ 10 :: rest) = s2l "$ORIGIN" ++ (32 :: (ot ++ 10 :: rest)) := by
+    simp [s2l]
+  rw [e] at htok
+  have hg := get_first_ident (s2l "$ORIGIN") (32 :: (ot ++ 10 :: rest)) (by decide) (by decide) ⟨32, _, rfl, by decide⟩
+  have hg2 : (after 0 false (32 :: (ot ++ 10 :: rest))).get = .ok (identToken ot, after 0 false (10 :: rest)) := by
+    have := get_blank_word [32] (.ident ot) (10 :: rest) (blank_cons blank_nil)
+      (by simp [Word.ok, hot, hne]) ⟨10, rest, rfl, by decide⟩
+    simpa [Word.text, Word.token, Word.isQuoted, identToken] using this
+  have hn : (identToken ot).asName none false none = .ok o := by
+    simp [Token.asName, identToken, Token.isIdentifier, hname, chooseRelativity]
+  unfold lineStep
+  simp only [bind, Except.bind, liftT, htok, hg]
+  have h1 : (identToken (s2l "$ORIGIN")).ttype ≠ .eof := by simp [identToken]
+  have h2 : (identToken (s2l "$ORIGIN")).ttype ≠ .eol := by simp [identToken]
+  have h3 : (identToken (s2l "$ORIGIN")).ttype ≠ .comment := by simp [identToken]
+  have h4 : (s2l "$ORIGIN").head? = some 36 := by decide
+  have h5 : directiveOf (s2l "$ORIGIN") = s2l "$ORIGIN" := by decide
+  have h6 : s2l "$ORIGIN" ≠ s2l "$TTL" := by decide
+  have hval : (identToken (s2l "$ORIGIN")).value = s2l "$ORIGIN" := rfl
+  simp only [h1, h2, h3, hval, h4, h5, h6, if_false, if_true, TState.getName, bind, Except.bind, hg2, hn, TState.getEol,
+    get_eol_after', Token.isEolOrEof, pure, Except.pure]
+  simp only [originAfter]
+  cases r.zoneOrigin <;> rfl
 
 end Model
